@@ -76,7 +76,10 @@ class MatrixGenerator:
         assert states.shape[1] == self.n
         mx = torch.tensor(self.matrix, dtype=torch.int64, device=states.device)
         mx = mx.unsqueeze(0).unsqueeze(-1)
-        ans = (mx * states.unsqueeze(1)).sum(dim=2)
+        prod = mx * states.unsqueeze(1)
+        if self.modulo > 0:
+            prod %= self.modulo  # Reduce before summing, so that the sum cannot overflow int64.
+        ans = prod.sum(dim=2)
         if self.modulo > 0:
             ans %= self.modulo
         return ans
